@@ -5,7 +5,7 @@ import os
 import common
 import vhdl_reader as R
 
-CASE_TMPL = """{header}From Cohdl Require Import Equiv.VhdlTS Equiv.RefTS.
+CASE_TMPL = """{header}From Cohdl Require Import Equiv.VhdlTS Equiv.RefTS Vhdl.DeadVars Equiv.NormTS.
 {imports}
 Definition d : design := {design}.
 {defs}
@@ -16,12 +16,12 @@ Definition assume : list Z -> list value -> bool := {assume}.
 {count}Theorem case_ok : forall ins, admissible stepB alphabet assume initB ins ->
   traceA (vstep d {mid}) (power_up d) ins = traceB stepB initB ins.
 Proof.
-  apply (rcheck_sound d {mid} stepB alphabet assume {fuel} initB); vm_cast_no_check (eq_refl true).
+  apply (rcheck_n_sound d {mid} stepB alphabet assume {fuel} initB); vm_cast_no_check (eq_refl true).
 Qed.
 """
 
 
-MON_TMPL = """{header}From Cohdl Require Import Equiv.VhdlTS Equiv.RefTS Equiv.Monitor.
+MON_TMPL = """{header}From Cohdl Require Import Equiv.VhdlTS Equiv.RefTS Equiv.Monitor Vhdl.DeadVars Equiv.NormTS.
 {imports}
 Definition d : design := {design}.
 {defs}
@@ -31,7 +31,7 @@ Definition alphabet : list (list value) := {alphabet}.
 {count}Theorem case_ok : forall ins, Forall (fun i => In i alphabet) ins ->
   Forall (fun o => o = okout) (traceA (mstep d {mid} mon) (power_up d, m0) ins).
 Proof.
-  apply (mcheck_sound d {mid} mon alphabet {fuel} m0); vm_cast_no_check (eq_refl true).
+  apply (mcheck_n_sound d {mid} mon alphabet {fuel} m0); vm_cast_no_check (eq_refl true).
 Qed.
 """
 
@@ -62,7 +62,7 @@ def default_alphabet(d: R.Design, overrides=None):
 
 class Case:
     def __init__(self, name, vhdl, step, init, imports="", defs="", assume="fun _ _ => true", mid=False,
-                 alphabet=None, alphabet_overrides=None, fuel=2000000, clk="clk", top=None, meta=None, monitor=False):
+                 alphabet=None, alphabet_overrides=None, fuel=1000000, clk="clk", top=None, meta=None, monitor=False):
         self.monitor = monitor
         self.name = name
         self.vhdl = vhdl
@@ -94,9 +94,9 @@ def write_case(ck, c: Case):
     cnt = ""
     if c.count:
         if c.monitor:
-            cnt = "Eval vm_compute in (mcheck d %s mon alphabet %d m0).\n" % ("true" if c.mid else "false", c.fuel)
+            cnt = "Eval vm_compute in (mcheck_n d %s mon alphabet %d m0).\n" % ("true" if c.mid else "false", c.fuel)
         else:
-            cnt = "Eval vm_compute in (rcheck d %s stepB alphabet assume %d initB).\n" % ("true" if c.mid else "false", c.fuel)
+            cnt = "Eval vm_compute in (rcheck_n d %s stepB alphabet assume %d initB).\n" % ("true" if c.mid else "false", c.fuel)
     with open(c.path, "w") as f:
         f.write(tmpl.format(header=common.COQ_HEADER, imports=c.imports, design=term, defs=c.defs, step=c.step,
                                  init=c.init, alphabet=alpha, assume=c.assume, mid="true" if c.mid else "false",
@@ -105,7 +105,8 @@ def write_case(ck, c: Case):
     return c.path
 
 
-DIAG_TMPL = """Definition verdict := Eval vm_compute in (rcheck_bfs d {mid} stepB alphabet assume {fuel} initB).
+DIAG_TMPL = """Eval vm_compute in (dead_ok (auto_T d) d).
+Definition verdict := Eval vm_compute in (rcheck_bfs d {mid} stepB alphabet assume {fuel} initB).
 Eval vm_compute in verdict.
 Eval vm_compute in (match verdict with
   | VCex path => Some (traceA (vstep d {mid}) (power_up d) path, traceB stepB initB path)
